@@ -2,4 +2,5 @@ import Tumfl.Props.C06
 #print axioms Tumfl.Props.C06_quoted
 #print axioms Tumfl.Props.C06_long
 #print axioms Tumfl.Props.C06_forms
+#print axioms Tumfl.Props.C06_wrapped
 #print axioms Tumfl.Inst.escTable_ok
